@@ -832,6 +832,7 @@ func TestC06(t *testing.T) {
 	if err := fsrec.BuildChild("./c06/cmd/c06child", bin); err != nil {
 		t.Fatalf("build child: %v", err)
 	}
+	t.Logf("child %s built from the harness module with modfile %q, VERIF_REPO=%q (empty = /repo)", bin, fsrec.ChildModfile(), os.Getenv("VERIF_REPO"))
 	if _, err := exec.LookPath("strace"); err != nil {
 		run.Inconclusive("strace not available")
 		return
